@@ -25,6 +25,13 @@ def run(ctx):
 
     def mk(kind, refs, qs, k):
         refs, qs = list(refs), list(qs)
+        if kind.endswith('[same object]'):
+            # the SAME container object as both collections: still the two-collection search, pairs (i, i, 0) included
+            base, qs = kind[:-len('[same object]')], refs
+            fn = nn.symdel if base == 'symdel' else nn.nearest_neighbor
+            return Case('%s k=%d seqs2 is seqs (%d sequences)' % (base, k, len(refs)), lambda: fn(refs, max_edits=k, seqs2=refs),
+                        ('api_brute_cross_lev', [k, refs, refs]), seqs=refs, seqs2=refs, site='nn.symdel[seqs2 is seqs]',
+                        nontrivial=lambda exp: any(d > 0 for q, r, d in exp))
         if kind == 'symdel':
             th = lambda: nn.symdel(refs, max_edits=k, seqs2=qs)
             model, site = 'api_brute_cross_lev', 'nn.symdel[seqs2]'
@@ -67,6 +74,8 @@ def run(ctx):
             qs = [refs[0]]
         k = rng.choice([1, 1, 2, 3])
         kind = ['symdel', 'nearest_neighbor', 'SymdelDB', 'LookupDB'][t % 4]
+        if t % 10 == 9:
+            kind = ['symdel[same object]', 'nearest_neighbor[same object]'][t // 10 % 2]
         if kind == 'LookupDB':
             k = min(k, 2)
             refs = [s for s in refs if len(s) <= 12] or ['CAF']
